@@ -31,7 +31,7 @@ HOSTILE_NAMES = ["class", "def", "return", "import", "None", "True", "match", "t
                  "self", "cls", "id", "async", "await", "lambda", "global", "nonlocal", "yield", "try", "pass", "del", "in", "is",
                  "not", "or", "and", "if", "else", "for", "while", "from", "as", "assert", "break", "continue", "except", "finally",
                  "raise", "len", "print", "property", "super", "isinstance", "a" * 70, "X_", "x__y", "Inner", "Element", "Attribute",
-                 "é1x", "ö-3", "ø5m", "ü2x"]   # (a name that reduces to digits only, like é1, is a recorded C07 finding)
+                 "é1x", "ö-3x", "ø5m", "ü2x"]   # (a name that reduces to digits only, like é1, is a recorded C07 finding)
 ENUM_VALUES_HOSTILE = ["", " ", "1", "+1", "-", "--", "a b", "class", "None", "*", "/", "%", "é", "A", "a", "a_b", "a-b", "a.b", "9lives",
                        "true", "TRUE", "  lead", "x" * 60, "()", "'", '"', "\\", "a\tb", "β1", "é2"]
 
